@@ -10,6 +10,9 @@ var (
 	ErrMismatchedPrecision = errors.New("mismatched precision")
 	ErrMismatchedUnit      = errors.New("mismatched unit")
 	ErrIntOverflow         = errors.New("operation resulted in integer overflow")
+	// ErrDivideByZero is raised by the division operators (/, div, mod) for a zero
+	// divisor. Like overflow, it makes the operator evaluate to an empty collection.
+	ErrDivideByZero = errors.New("division by zero")
 )
 
 // Type names.
